@@ -12,3 +12,4 @@ pub mod rng;
 pub mod selftest;
 pub mod texttypes;
 pub mod util;
+pub mod perturb;
